@@ -487,6 +487,15 @@ def builtin_method(ex, st, obj, mname, args, kwargs, cx, node, k):
         is_bytes = (t == T.BYTEARRAY)
         jv = z3.Int('j!lm')
         if mname == 'append':
+            a0 = args[0]
+            if a0.ty.kind == 'opt' and a0.ty.args[0].kind == 'str' and a0.ty.args[0] == ety and not cx.spec:
+                # an optional scalar appended to a list of that scalar (list[str] receiving a `str?` local): that the value
+                # is not None here is an obligation (the list's element type is an invariant its readers rely on)
+                dt_ = T.sort_of(a0.ty)
+                ex.oblige(st, ex.site(cx, node, 'element-not-None'), dt_.is_some(a0.z), kind='absence',
+                          info=dict(why=f'{ast.unparse(node)}: the appended value may be None'))
+                st = st.assume(dt_.is_some(a0.z))
+                args = [SV(ety, dt_.val(a0.z))] + list(args[1:])
             x = ex.coerce(args[0], ety, 'list.append')
 
             def cont(s):
